@@ -9,6 +9,7 @@ import itertools
 import json
 import multiprocessing
 import os
+import re
 import sys
 import time
 
@@ -711,6 +712,9 @@ def same_outcome(a, b):
     return True
 
 
+_ADDR = re.compile(r"==[0-9]+==|0x[0-9a-f]+|/[^ ()]*/build/[0-9a-f]+/")
+
+
 def run_exec(binary, lines):
     """Feed `lines` (str) to the executor; returns a list of output lines, one per input line.  A case on which
     the process dies is reported as 'CRASH\t<summary>' and the batch is resumed after it."""
@@ -730,9 +734,10 @@ def run_exec(binary, lines):
             # every case answered but the process did not exit cleanly (e.g. a leak report at exit)
             out.append("EXECUTOR\texit %s: %s" % (rc, se[-600:].replace("\n", " | ")))
         if pos < len(lines):
-            summ = [l for l in se.split("\n") if "SUMMARY" in l or "runtime error" in l or "ERROR: " in l]
-            where = [l.strip() for l in se.split("\n") if l.strip().startswith("#") and "jsoncons" in l][:3]
-            out.append("CRASH\texit %s %s %s" % (rc, " | ".join(s.strip()[:300] for s in summ[:3]), " <- ".join(w[:160] for w in where)))
+            summ = [l.strip() for l in se.split("\n") if "SUMMARY" in l or "runtime error" in l]
+            # keep the report free of pids, addresses and build paths: the detail must be identical on replay
+            text = " | ".join(_ADDR.sub("", x)[:240] for x in summ[:2])
+            out.append("CRASH\texit %s %s" % (rc, text))
             pos += 1
     return out
 
@@ -764,7 +769,8 @@ def worker(job):
             del pend[:], lines[:]
             return
         for (sig, text, ast, ref, static, dix), line in zip(pend, outs):
-            res.sum["evaluations"] = res.sum.get("evaluations", 0) + 6
+            # one-shot, compiled (evaluated twice), throwing overload, and unless the text is rejected: (e), e | @
+            res.sum["evaluations"] = res.sum.get("evaluations", 0) + (3 if line.startswith("ERR\tsyntax") else 6)
             crash = judge_crash(line)
             if crash:
                 res.viol.setdefault(sig, "%s on %s :: %s" % (text, _doctext(dix)[0][:160], crash))
